@@ -116,10 +116,13 @@ def replay(case) -> dict:
     box = stack.shape[1:]
     V = int(np.prod(box))
     chunks = (tuple(case["rowchunks"]),) + ((box[0],) if not cfg["voxchunk"] else ((box[0] + 1) // 2, box[0] // 2),) + tuple((b,) for b in box[1:])
+    if case.get("_int"):
+        # an integer-typed stack (the designs are integer valued; only the junk outside the mask is rounded)
+        stack = np.round(stack).astype(np.int16)
     dstack = da.from_array(stack, chunks=chunks)
     ncomp = cfg["ncomp"]
     desc = dict(part="pca", n=n, voxels=V, large=V > 500, ncomp=ncomp, J=cfg["design"]["J"], truncated=ncomp < cfg["design"]["J"], mask=cfg["mask"], soft=cfg.get("soft", False),
-                rowchunks=cfg["rowchunks"], voxchunk=cfg["voxchunk"])
+                rowchunks=cfg["rowchunks"], voxchunk=cfg["voxchunk"], int_stack=bool(case.get("_int")))
     fails = []
 
     def fit():
@@ -150,6 +153,12 @@ def replay(case) -> dict:
         supp[blocks[j]] = weights[j] / np.sqrt(np.sum(weights[j] ** 2))
         if min(np.max(np.abs(c - supp)), np.max(np.abs(c + supp))) > 1e-3:
             fails.append(dict(desc, clause="Components", comp=r, maxdev=float(min(np.max(np.abs(c - supp)), np.max(np.abs(c + supp))))))
+    # projections of a SELECTION of images come back for exactly those images, in the requested order
+    for sel in (list(range(n - 1, -1, -1)), [2, 0, 2], [1]):
+        Tsel = np.asarray(engine.api(clf.get_transform, sel), dtype=np.float64)
+        if Tsel.shape != (len(sel), T.shape[1]) or not np.allclose(Tsel, T[sel], atol=1e-5 * max(1.0, float(np.abs(T).max()))):
+            fails.append(dict(desc, clause="TransformOfSelection", selection=sel[:4]))
+            break
     # run-to-run reproducibility
     clf2, exc2 = engine.api_try(fit)
     if exc2 is None and not np.allclose(np.abs(np.asarray(clf2.get_transform())), np.abs(T), atol=1e-4 * max(1.0, float(np.abs(T).max()))):
@@ -220,6 +229,8 @@ def run(rep: engine.Report, tier: str, seed: int):
         raise engine.MachineryError("MC_C18 emitted nothing")
     budget = 500 if tier == "quick" else len(cases)
     sel = engine.stratified_sample(cases, lambda c: (tuple(c["cfg"]["box"]), c["cfg"]["ncomp"], c["cfg"]["mask"], c["cfg"]["soft"], c["cfg"]["rowchunks"], c["cfg"]["voxchunk"], len(c["cfg"]["design"]["A"])), budget, seed)
+    for i, c in enumerate(sel):
+        c["_int"] = (i + seed) % 2
     cls = [dict(kind="classify", n=n, loader=l, seed=seed + i) for i, (n, l) in enumerate((n, l) for n in (6, 9, 12) for l in ("single", "batch"))]
     noisy = [dict(kind="noisy", n=n, box=list(b), seed=seed * 31 + i) for i, (n, b) in enumerate((n, b) for n in (6, 12, 30, 60) for b in ((4, 4, 4), (6, 7, 8), (7, 8, 9), (10, 10, 10)))]
     allc = sel + cls + noisy
